@@ -346,7 +346,7 @@ func init() {
 			return &Scenario{Prop: "C05", Kind: "single", World: w, Bug: &BuggifySpec{Off: true}}
 		},
 		Exec:  execC05,
-		Quick: 600, Thorough: 20000,
+		Quick: 2000, Thorough: 60000,
 		NonTrivial: func(res *Result) bool { return res.Status != "invalid" && res.Status != "crash" && (res.Stats["reach.multi-year"] > 0 || res.Stats["reach.crop-records"] > 0) },
 		Rule:       "one generated world per evaluation with random start/end/annual dates (incl. 29 Feb, 31 Dec, 1 Jan, annual date after the end date), output intervals 0..10, both styles, ASCII and non-ASCII separator / fill characters, and generated output configurations over every supported kind of reference (float/int scalars, [i], [i][j], nested X.Num/X.Index, text incl. empty text, slice element, modifier, unknown variable, index out of range); the recorded V/Y/C write streams are checked as histories: exact set and order of record dates against the reference calendar, one yearly record per simulated year on the configured date, one crop record per harvested rotation entry in order, field count / record width per record, files closed once and terminated; non-trivial = more than one year or at least one crop record",
 		ReachKeys:  []string{"reach.non-ascii-separator-or-fill", "reach.multi-year", "reach.crop-records", "reach.interval-gt-1", "reach.leap-day-record", "reach.csv-style", "reach.fixed-width-style"},
